@@ -874,3 +874,251 @@ Proof.
     rewrite parse_kwargs_ok; auto. }
   destruct (kw_of n); try discriminate. rewrite Hpi. exact HL.
 Qed.
+
+(* ------------------------------------------------------------------ subscripts and chains *)
+Lemma starter_not_colon : forall t r, starter t = true -> hd_is (t :: r) TColon = false.
+Proof. destruct t; cbn; intros; try reflexivity; discriminate. Qed.
+
+Lemma subscript_item_ok : forall d c e' i (opt : bool) ts,
+  TBp i -> printable i = true -> need i <= d -> S (fst c) + needb i <= maxb ->
+  parse_subscript maxb (PA d) c e' ((if opt then TQLBracket else TLBracket) :: raw i ++ TRBracket :: ts)
+  = Some (EItem e' (desugar i) opt, ts).
+Proof.
+  intros d c e' i opt ts TB Hp Hn Hb.
+  unfold parse_subscript.
+  assert (Hm : maxb <? S (fst c) = false) by (apply Nat.ltb_ge; lia).
+  destruct (raw_hd i Hp) as (t & r & Er & St).
+  assert (Hc : hd_is (raw i ++ TRBracket :: ts) TColon = false).
+  { rewrite Er. cbn [app]. apply starter_not_colon. exact St. }
+  destruct opt; hdis; rewrite Hm; rewrite Hc; unfold sub_opt;
+    rewrite (TB d (S (fst c), snd c) 0 0 (TRBracket :: ts)); try solve [side]; try (unfold fits; cbn [fst]; lia);
+    hdis; reflexivity.
+Qed.
+
+Lemma chain_loop_S : forall P k c e t ts1,
+  chain_loop maxb P (S k) c e (t :: ts1) =
+      if tis t TDot || tis t TQDot then
+        match ts1 with
+        | t2 :: ts2 =>
+            match as_ident t2 with
+            | Some a => chain_loop maxb P k c (EAttr e a (tis t TQDot)) ts2
+            | None => None
+            end
+        | [] => None
+        end
+      else if tis t TLBracket || tis t TQLBracket then
+        match parse_subscript maxb P c e (t :: ts1) with Some (e', ts2) => chain_loop maxb P k c e' ts2 | None => None end
+      else if tis t TLParen then None
+      else Some (e, t :: ts1).
+Proof. reflexivity. Qed.
+
+Lemma chain_loop_stop : forall P k c e ts,
+  (match ts with t :: _ => chain_tok t = false | [] => True end) ->
+  chain_loop maxb P (S k) c e ts = Some (e, ts).
+Proof.
+  intros P k c e [|t ts1] H; [reflexivity|].
+  rewrite chain_loop_S. destruct t; cbn in H; try discriminate; reflexivity.
+Qed.
+
+Fixpoint chead (s : sx) : str :=
+  match s with
+  | SVar x => x
+  | SAttr e _ _ | SItem e _ _ | SSlice e _ _ _ _ => chead e
+  | _ => []
+  end.
+Fixpoint citems (s : sx) : list token :=
+  match s with
+  | SAttr e a opt => citems e ++ [if opt then TQDot else TDot; TIdent a]
+  | SItem e i opt => citems e ++ [if opt then TQLBracket else TLBracket] ++ raw i ++ [TRBracket]
+  | _ => []
+  end.
+Fixpoint clen (s : sx) : nat :=
+  match s with
+  | SAttr e _ _ | SItem e _ _ => S (clen e)
+  | _ => 0
+  end.
+
+Lemma chain_lvl : forall s, is_chain s = true -> lvl s = lvl_atom.
+Proof. destruct s; cbn; intros; try discriminate; reflexivity. Qed.
+
+Lemma raw_chain : forall s, is_chain s = true -> printable s = true -> raw s = TIdent (chead s) :: citems s.
+Proof.
+  induction s; cbn [is_chain printable]; intros Hc Hp; try discriminate.
+  - reflexivity.
+  - apply andb_prop in Hp. destruct Hp as [_ Hp]. cbn [raw chead citems]. rewrite IHs by assumption. reflexivity.
+  - apply andb_prop in Hp. destruct Hp as [Hp _]. apply andb_prop in Hp. destruct Hp as [_ Hp].
+    cbn [raw chead citems]. unfold wrap. rewrite (chain_lvl _ Hc). rewrite Nat.ltb_irrefl.
+    rewrite IHs1 by assumption. reflexivity.
+Qed.
+
+Lemma chain_plain : forall s, is_chain s = true -> printable s = true -> plain (chead s) = true.
+Proof.
+  induction s; cbn [is_chain printable chead]; intros Hc Hp; try discriminate; auto.
+  - apply andb_prop in Hp. destruct Hp as [_ Hp]. auto.
+  - apply andb_prop in Hp. destruct Hp as [Hp _]. apply andb_prop in Hp. destruct Hp as [_ Hp]. auto.
+Qed.
+
+Lemma clen_le : forall s, clen s <= List.length (citems s).
+Proof.
+  induction s; cbn [clen citems]; try lia.
+  - rewrite app_length. cbn. lia.
+  - rewrite !app_length. cbn. lia.
+Qed.
+
+Definition CLp (s : sx) : Prop := forall d c k R ts,
+  printable s = true -> need s <= S d -> fits s c ->
+  chain_loop maxb (PA d) k c (desugar s) ts = Some R ->
+  chain_loop maxb (PA d) (k + clen s) c (EVar (chead s)) (citems s ++ ts) = Some R.
+
+Lemma size_pos : forall s, 1 <= size s.
+Proof. destruct s; cbn [size]; lia. Qed.
+
+Lemma cl_all : forall s, is_chain s = true -> (forall x, size x < size s -> TBp x) -> CLp s.
+Proof.
+  induction s; cbn [is_chain]; intros Hc HTB; try discriminate.
+  - (* SVar *) intros d c k R ts Hp Hn Hf HL. cbn [clen citems chead desugar app] in *. rewrite Nat.add_0_r. exact HL.
+  - (* SAttr *)
+    assert (CL : CLp s).
+    { apply IHs; auto. intros x Hx. apply HTB. cbn [size]. lia. }
+    intros d c k R ts Hp Hn Hf HL.
+    cbn [printable] in Hp. apply andb_prop in Hp. destruct Hp as [_ Hp].
+    cbn [need] in Hn. unfold fits in *. cbn [needb] in Hf.
+    cbn [clen citems chead desugar] in *. rewrite <- app_assoc. cbn [app].
+    replace (k + S (clen s)) with (S k + clen s) by lia.
+    apply CL; auto; try (unfold fits; lia).
+    destruct opt.
+    + rewrite (chain_loop_S (PA d) k c (desugar s) TQDot (TIdent a :: ts)). hdis. cbn [as_ident]. exact HL.
+    + rewrite (chain_loop_S (PA d) k c (desugar s) TDot (TIdent a :: ts)). hdis. cbn [as_ident]. exact HL.
+  - (* SItem *)
+    assert (CL : CLp s1).
+    { apply IHs1; auto. intros x Hx. apply HTB. cbn [size]. lia. }
+    assert (TBi : TBp s2).
+    { apply HTB. cbn [size]. pose proof (size_pos s1). lia. }
+    intros d c k R ts Hp Hn Hf HL.
+    cbn [printable] in Hp. apply andb_prop in Hp. destruct Hp as [Hp Hpi].
+    apply andb_prop in Hp. destruct Hp as [_ Hp].
+    cbn [need] in Hn. unfold fits in *. cbn [needb] in Hf.
+    unfold needw in Hn. rewrite (chain_lvl _ Hc), Nat.ltb_irrefl in Hn.
+    cbn [clen citems chead desugar] in *. rewrite <- !app_assoc. cbn [app].
+    replace (k + S (clen s1)) with (S k + clen s1) by lia.
+    apply CL; auto; try lia; try (unfold fits; lia).
+    destruct opt.
+    + rewrite (chain_loop_S (PA d) k c (desugar s1) TQLBracket (raw s2 ++ TRBracket :: ts)). hdis.
+      rewrite (subscript_item_ok d c (desugar s1) s2 true ts); auto; try lia.
+    + rewrite (chain_loop_S (PA d) k c (desugar s1) TLBracket (raw s2 ++ TRBracket :: ts)). hdis.
+      rewrite (subscript_item_ok d c (desugar s1) s2 false ts); auto; try lia.
+Qed.
+
+Lemma citems_hd : forall s, is_chain s = true ->
+  citems s = [] \/ exists t l, citems s = t :: l /\ tis t TLParen = false.
+Proof.
+  induction s; cbn [is_chain citems]; intros Hc; try discriminate; auto.
+  - right. destruct (IHs Hc) as [E|(t & l & E & Ht)]; rewrite E; cbn [app]; eauto.
+    destruct opt; eauto.
+  - right. destruct (IHs1 Hc) as [E|(t & l & E & Ht)]; rewrite E; cbn [app]; eauto.
+    destruct opt; eauto.
+Qed.
+
+Lemma ml_chain : forall s, is_chain s = true -> CLp s -> MLp s.
+Proof.
+  intros s Hc CL d c min p k R ts Hthr Hp Hpr Hn Hf Hfo HL.
+  assert (Hsp : spine s = 0).
+  { destruct s; cbn [is_chain spine] in *; try discriminate; try reflexivity. rewrite Hc. reflexivity. }
+  rewrite Hsp, Nat.add_0_r.
+  rewrite (raw_chain s Hc Hpr). cbn [app]. unfold body_k, Pratt.prefix.
+  pose proof (chain_plain s Hc Hpr) as Hpl. unfold plain in Hpl.
+  assert (Hnext : match ts with t :: _ => chain_tok t = false | [] => True end).
+  { destruct ts as [|t ts0]; [exact I|]. cbn [followL] in Hfo.
+    destruct s; cbn [is_chain follow] in *; try discriminate.
+    - destruct (chain_tok t); cbn in *; congruence.
+    - destruct (chain_tok t); cbn in *; congruence.
+    - rewrite Hc in Hfo. destruct (chain_tok t); cbn in *; congruence. }
+  assert (Hpi : parse_ident maxb (PA d) c (chead s) (citems s ++ ts) = Some (desugar s, ts)).
+  { unfold parse_ident.
+    assert (Hlp : hd_is (citems s ++ ts) TLParen = false).
+    { destruct (citems_hd s Hc) as [E|(t & l & E & Ht)]; rewrite E; cbn [app].
+      - destruct ts as [|t ts0]; [reflexivity|]. destruct t; cbn in *; try reflexivity; discriminate.
+      - exact Ht. }
+    rewrite Hlp.
+    pose proof (clen_le s) as Hcl.
+    set (L := List.length (citems s ++ ts)).
+    assert (HLs : S L = (S L - clen s) + clen s).
+    { subst L. rewrite app_length. lia. }
+    rewrite HLs. apply CL; auto.
+    assert (exists k', S L - clen s = S k') as [k' Hk'].
+    { subst L. rewrite app_length. exists (List.length (citems s) + List.length ts - clen s). lia. }
+    rewrite Hk'. apply chain_loop_stop. exact Hnext. }
+  destruct (kw_of (chead s)); try discriminate. rewrite Hpi. exact HL.
+Qed.
+
+Lemma follow_atom_bracket : forall e,
+  is_chain e = false -> lvl e <? lvl_atom = false -> printable e = true -> follow e TLBracket = true.
+Proof.
+  intros e Hc Hl Hp. destruct e; cbn [is_chain follow lvl printable] in *; try reflexivity; try discriminate.
+  all: try (destruct u; discriminate); try (destruct o; discriminate).
+  - apply andb_prop in Hp. destruct Hp as [Hp _]. congruence.
+  - rewrite Hc. reflexivity.
+Qed.
+
+Lemma ml_item : forall e i opt, is_chain e = false -> MLp e -> TBp e -> TBp i -> MLp (SItem e i opt).
+Proof.
+  intros e i opt Hc MLe TBe TBi d c min p k R ts Hthr Hp Hpr Hn Hf Hfo HL.
+  cbn [printable] in Hpr. apply andb_prop in Hpr. destruct Hpr as [Hpr Hpi].
+  apply andb_prop in Hpr. destruct Hpr as [Hopt Hpe].
+  destruct opt; [rewrite Hc in Hopt; discriminate|].
+  cbn [need] in Hn. unfold fits in *. cbn [needb] in Hf.
+  cbn [raw spine desugar] in *. rewrite Hc.
+  rewrite <- !app_assoc. cbn [app].
+  replace (k + S (if lvl e <? lvl_atom then 0 else spine e)) with (S k + (if lvl e <? lvl_atom then 0 else spine e)) by lia.
+  eapply (left_op e lvl_atom MLe TBe); eauto.
+  - lia.
+  - unfold fits. lia.
+  - intros E. cbn [followL]. apply follow_atom_bracket; auto.
+  - rewrite loop_S. change (classify TLBracket) with LSub. cbv iota.
+    rewrite (subscript_item_ok d c (desugar e) i false ts); auto; try lia.
+Qed.
+
+(* ------------------------------------------------------------------ assembling: induction on size *)
+Lemma size_kw : forall (kw : list (str * sx)) v,
+  In v (map snd kw) ->
+  size v <= list_sum (map (fun p : str * sx => match p with (_, v) => size v end) kw).
+Proof.
+  induction kw as [|[n x] r IH]; intros v H; [cbn in H; tauto|].
+  cbn [map snd In] in H. cbn [map list_sum fold_right]. unfold list_sum in IH.
+  destruct H as [->|H]; [lia|]. specialize (IH v H). lia.
+Qed.
+
+Lemma ml_all : forall n s, size s <= n -> MLp s.
+Proof.
+  induction n as [|n IH]; intros s Hs; [pose proof (size_pos s); lia|].
+  assert (TB : forall x, size x <= n -> TBp x) by (intros; apply tb_of_ml; apply IH; assumption).
+  assert (TBlt : forall x, size x < size s -> TBp x) by (intros; apply TB; lia).
+  destruct s; cbn [size] in Hs.
+  - apply ml_const.
+  - apply ml_chain; [reflexivity|]. apply cl_all; [reflexivity|exact TBlt].
+  - destruct (is_chain s) eqn:Hc.
+    + apply ml_chain; [exact Hc|]. apply cl_all; [exact Hc|exact TBlt].
+    + intros d0 cc min p k0 R ts0 _ _ Hpr. cbn [printable] in Hpr. rewrite Hc in Hpr. discriminate.
+  - destruct (is_chain s1) eqn:Hc.
+    + apply ml_chain; [exact Hc|]. apply cl_all; [exact Hc|exact TBlt].
+    + apply ml_item; auto; try (apply IH; lia); apply TB; lia.
+  - intros d0 cc min p k0 R ts0 _ _ Hpr. discriminate.
+  - apply ml_un. apply TB. lia.
+  - apply ml_bin; try (apply IH; lia); apply TB; lia.
+  - apply ml_notin; try (apply IH; lia); apply TB; lia.
+  - apply ml_test; try (apply IH; lia); try (apply TB; lia).
+    intros v Hv. apply TB. pose proof (size_kw kw v Hv). lia.
+  - apply ml_filter; try (apply IH; lia); try (apply TB; lia).
+    intros v Hv. apply TB. pose proof (size_kw kw v Hv). lia.
+  - apply ml_call. intros v Hv. apply TB. pose proof (size_kw kw v Hv). lia.
+  - apply ml_tern; try (apply IH; lia); apply TB; lia.
+  - apply ml_paren. apply TB. lia.
+  - intros d0 cc min p k0 R ts0 _ _ Hpr. discriminate.
+  - intros d0 cc min p k0 R ts0 _ _ Hpr. discriminate.
+  - intros d0 cc min p k0 R ts0 _ _ Hpr. discriminate.
+Qed.
+
+Theorem tb_all : forall s, TBp s.
+Proof. intros s. apply tb_of_ml. apply (ml_all (size s)). lia. Qed.
+
+End RoundTrip.
